@@ -106,7 +106,8 @@ def check(ctx):
         ctx.tlc_mc(MODULE, "MC_Drawdown.cfg", timeout=900, coverage=False)        # <= 4 points, irregular time steps
         ctx.tlc_mc(MODULE, "MC_Drawdown_long.cfg", timeout=900, coverage=False)   # all curves of <= 6 points over 1..4
     else:
-        ctx.tlc_mc(MODULE, "MC_Drawdown_thorough.cfg", timeout=2400, coverage=False)  # <= 6 points, irregular steps
+        ctx.tlc_mc(MODULE, "MC_Drawdown_thorough.cfg", timeout=2400, coverage=False)       # <= 5 points over 1..5, irregular steps
+        ctx.tlc_mc(MODULE, "MC_Drawdown_long_thorough.cfg", timeout=2400, coverage=False)  # all curves of <= 7 points over 1..4
     # every curve of the bounded model (equal neighbours, recovery exactly to the peak, ...)
     p_t, scn_t = ctx.tlc_gen("Gen_" + MODULE, "GenT_Drawdown.cfg" if ctx.quick else "GenT_Drawdown_thorough.cfg", "all.ndjson", timeout=900)
     # longer random curves, wider values, irregular time steps
